@@ -44,7 +44,7 @@ func (C20) AllowsPanic500(sc *drv.Scenario) bool { return true } // judged per r
 
 var c20Kinds = []string{
 	"seg-blocks", "seg-blocks", "seg-blocks", "seg-ingest-supervoxels", "seg-raw", "seg-raw-compressed", "seg-split", "seg-split-supervoxel", "seg-indices", "seg-index", "seg-mappings",
-	"seg-merge", "seg-cleave", "seg-renumber", "ann-elements", "ann-blocks", "ann-move", "kv-key", "kv-keyvalues", "nj-key", "nj-keyvalues", "roi-roi", "roi-ptquery", "gray-raw", "gray-blocks", "url", "url",
+	"seg-merge", "seg-cleave", "seg-renumber", "ann-elements", "ann-blocks", "ann-move", "kv-key", "kv-keyvalues", "nj-key", "nj-keyvalues", "nj-delete", "nj-stamps", "roi-roi", "roi-ptquery", "gray-raw", "gray-blocks", "url", "url",
 }
 
 func (C20) Generate(r *rand.Rand, tier string, idx int) *drv.Scenario {
@@ -524,6 +524,18 @@ func (x *c20Exec) buildHostile(kind string, r *rand.Rand) (rq proto.Req, what st
 		id := 10 + r.IntN(4)
 		body, wh := mutJSON(r, []byte(fmt.Sprintf(`{"bodyid":%d,"type":"t1","status":"s","n":7}`, id)))
 		return post(fmt.Sprintf("%s/key/%d?u=sim", nj, id), body), "neuron annotation " + wh, nil
+	case "nj-delete":
+		// well-formed: DELETE of a key that exists, does not exist, or was already deleted
+		id := pick(r, []int{10, 11, 12, 13, 99, 100000, 0})
+		return del(fmt.Sprintf("%s/key/%d", nj, id)), "DELETE of a present or absent key", nil
+	case "nj-stamps":
+		// the reserved <field>_time / <field>_user companions with values of the wrong type
+		id := 10 + r.IntN(4)
+		f := pick(r, []string{"type", "status", "x"})
+		v := pick(r, []string{"5", "null", "[1]", "{}", "true", "1e99"})
+		sfx := pick(r, []string{"_time", "_user"})
+		body := fmt.Sprintf(`{"bodyid":%d,"%s":"v","%s%s":%s}`, id, f, f, sfx, v)
+		return post(fmt.Sprintf("%s/key/%d?u=sim", nj, id), []byte(body)), "neuron annotation with a " + sfx + " companion of JSON type " + v, nil
 	case "nj-keyvalues":
 		body, wh := mutGeneric(r, protoKV("12", []byte(`{"bodyid":12,"type":"kvs"}`)))
 		return post(nj+"/keyvalues?u=sim", body), "neuron annotations protobuf " + wh, nil
